@@ -24,6 +24,8 @@ def U(name, entry, enforce=None, replace=(), reach=(), **kw):
 UNITS = [
     U("Unicode.length", "h_length", reach=["length.return"], funcs=["Unicode::length"]),
     U("Unicode.append", "h_append", (APPEND, "c_Unicode_append"), replace=[S_APPEND_CHAR], reach=["append.four", "append.reject"]),
+    U("Unicode.append_array", "h_append_arr", ("Unicode::append(ptr_const_unsigned_int|unsigned_long_int|ref_struct_tag(identifier=tag-String))", "c_Unicode_append_arr"),
+      replace=[(APPEND, "r_Unicode_append_one")], reach=["append_arr.return"], loops="contracts/unicode_appendarr.loops.json"),
     U("Unicode.inverse", "h_inverse", reach=["inverse.return"], funcs=["Unicode::fromString", "Unicode::length"]),
     U("Unicode.fromString", "h_fromString", (FROMSTR, "c_Unicode_fromString"), reach=["fromString.return"]),
     U("Unicode.isValid", "h_isValid", (ISVALID, "c_Unicode_isValid"), reach=["isValid.return"],
